@@ -58,6 +58,8 @@ class Oracle:
                 term = w.program[idx][2]
                 if term in FINAL_RESULT:
                     want = FINAL_RESULT[term]
+                    if len(self.unit) > 2 and self.unit[2] == 'needs-output':
+                        want = (want[0], False)  # result preserved, but not successful: a required output is missing
                     if proc.result() != want[0] or proc.successful() != want[1] or proc.is_successful != want[1]:
                         w.violate('finished:result', f(term=term), (repr(proc.result()), proc.successful()))
                 else:
@@ -90,8 +92,6 @@ class Oracle:
             text = msg.get('message') if isinstance(msg, dict) else msg
             texts = {r['args'][0] for r in w.calls if r['op'] == 'kill' and r['args']}
             texts |= {programs.KILLCMD_TEXT}
-            if isinstance(fexc, plumpy.KilledError) and str(fexc) != (text or ''):
-                w.violate('killed:future-text-differs', f(), (str(fexc), text))
             if text not in texts:
                 w.violate('killed:text-not-issued', f(text=repr(text)), None)
             try:
@@ -116,11 +116,8 @@ class Oracle:
                 w.violate('listener-terminal-notifications', features(w, state=str(proc.state), counts=counts), None)
             if w.cleanups != 1:
                 w.violate('cleanup-count', features(w, n=w.cleanups, state=str(proc.state)), None)
-            try:
-                proc.add_cleanup(lambda: None)
+            if not is_closed(proc):
                 w.violate('not-closed', features(w, state=str(proc.state)), None)
-            except plumpy.ClosedError:
-                pass
             # step_until_terminated() returns (at the latest when what a step of its own awaits has completed: a step
             # that was in flight when the process was terminated from outside cannot be taken back)
             if not w.task.done():
@@ -141,7 +138,22 @@ def cfg_for(unit: Any) -> ctl.Config:
     return ctl.Config(alphabet=ALPHABET, closing=('gates', 'play', 'resume'), resume_default=('dflt',))
 
 
-PROP = CtlProperty(ID, Oracle, cfg_for)
+class NeedsOutput(plumpy.Process):
+    """Base of programs whose output spec asks for an output they never emit: they finish, with their result, but not
+    successfully (the final state is entered through the failed validation of the outputs)."""
+
+    @classmethod
+    def define(cls, spec: Any) -> None:
+        super().define(spec)
+        spec.output('needed', valid_type=int, required=True)
+
+
+def cls_for(unit: Any) -> type:
+    needs = len(unit) > 2 and unit[2] == 'needs-output'
+    return programs.make_class(unit[0], NeedsOutput if needs else plumpy.Process)
+
+
+PROP = CtlProperty(ID, Oracle, cfg_for, cls_for=cls_for)
 
 
 def factory() -> CtlProperty:
@@ -167,6 +179,9 @@ def units_for(tier: str) -> List[Any]:
     # terminated from outside (a scheduled callback that raises) while an async step awaits a gate of its own
     gated = list(programs.linear_programs(2, ('G',), ('cont', 'wait'), ('ret', 'raise')))
     units += [(p, None) for p in programs.with_actions(gated, ('cs_raise',), wheres=('pre',))]
+    # programs that finish without a required output (FINISHED is entered through the failed output validation)
+    for p in programs.linear_programs(2, ('S', 'Y1'), ('cont', 'wait'), ('ret', 'unsucc')):
+        units.append((p, None, 'needs-output'))
     # a one-shot listener, registered before the recording one, unsubscribes itself from inside a notification
     for p in list(programs.linear_programs(2, ('S', 'Y1'), ('cont', 'wait'), ('ret', 'raise', 'killcmd'))):
         for ev in ('running', 'waiting', 'finished', 'excepted', 'killed'):
@@ -195,7 +210,7 @@ def wc_units(tier: str) -> List[Any]:
     return units
 
 
-from ._common import is_wc_unit  # noqa: E402
+from ._common import is_closed, is_wc_unit  # noqa: E402
 
 
 def run_check(tier: str, seed: int, workers: Any) -> Dict[str, Any]:
